@@ -4,6 +4,7 @@ import ExecModel.Launcher
 import ExecModel.Props.C16
 import ExecModel.Props.C15
 import ExecModel.Props.C17
+import ExecModel.Props.C17Nth
 import ExecModel.Lts.SysExplore
 import ExecModel.Args
 import ExecModel.Res
@@ -192,6 +193,19 @@ def wireOps (op : String) (j : Json) : Except String (Option Json) := do
       | .result v => Json.mkObj [("result", v)]
       | .error e => Json.mkObj [("error", e)]
       | .ack => Json.mkObj [("ack", true)])).toArray))
+  | "wire_pair" =>
+    -- the parent side (`C17.pair`): request index ↦ the reply a parent pairing each reply-bearing send with one receive is handed
+    let reqs ← (← j.getObjValAs? (Array Json) "reqs").toList.mapM parseReq
+    let cut := C17.takeThrough C17.isShutdown reqs
+    let prs := C17.pair cut (Wire.serve runK {} cut)
+    let rec go (i : Nat) : List (Wire.Req (List (String × Json)) CallK × Option (Wire.Reply Json Json)) → List Json
+      | [] => []
+      | (_, none) :: rest => go (i + 1) rest
+      | (_, some r) :: rest => Json.arr #[toJson i, (match r with
+          | .result v => Json.mkObj [("result", v)]
+          | .error e => Json.mkObj [("error", e)]
+          | .ack => Json.mkObj [("ack", true)])] :: go (i + 1) rest
+    pure (some (Json.arr (go 0 prs).toArray))
   | "wire_pserve" =>
     let reqs ← (← j.getObjValAs? (Array Json) "reqs").toList.mapM parseReq
     let n ← getNat j "n"
